@@ -1403,7 +1403,7 @@ func (m *RadioTap) DecodeFromBytes(data []byte, df gopacket.DecodeFeedback) erro
 	payload := data[m.Length:]
 
 	// Remove non standard padding used by some Wi-Fi drivers
-	if m.RadioTapValues[0].Flags.Datapad() &&
+	if m.RadioTapValues[0].Flags.Datapad() && len(payload) >= 2 &&
 		payload[0]&0xC == 0x8 { //&& // Data frame
 		headlen := 24
 		if payload[0]&0x8C == 0x88 { // QoS
@@ -1412,7 +1412,7 @@ func (m *RadioTap) DecodeFromBytes(data []byte, df gopacket.DecodeFeedback) erro
 		if payload[1]&0x3 == 0x3 { // 4 addresses
 			headlen += 2
 		}
-		if headlen%4 == 2 {
+		if headlen%4 == 2 && len(payload) >= headlen+2 {
 			// Build the unpadded frame in a new slice: removing the two bytes in place
 			// would shift the rest of the frame inside the caller's buffer.
 			unpadded := append([]byte(nil), payload[:headlen]...)
